@@ -64,6 +64,24 @@ def first_byte_decision(p, upto):
             return c[1]
         if c[0] == "eq" and e[0] in ("index", "cindex") and (e[2] == ("int", 0) or e[2] == 0):
             return c[1]
+        # `data.split_first()`: the first element of the Some payload is the first byte
+        if c[0] == "eq" and e[0] == "deref" and split_first_part(e[1]) == 0:
+            return c[1]
+    return None
+
+
+def split_first_part(x):
+    """0 / 1 if x is the first / second element of the `Some((first, rest))` that `data.split_first()` returned, else None"""
+    while isinstance(x, tuple) and x and x[0] in ("ref", "deref", "cast"):
+        x = x[1]
+    if isinstance(x, tuple) and x and x[0] == "field" and x[2] in (0, 1, "0", "1"):
+        y = x[1]
+        if y[0] == "field" and y[2] in (0, "0") and y[1][0] == "downcast" and y[1][2] == "Some":
+            z = y[1][1]
+            while isinstance(z, tuple) and z and z[0] in ("ref", "deref"):
+                z = z[1]
+            if z[0] in ("call", "pure") and short(z[1]) == "split_first":
+                return int(x[2])
     return None
 
 
@@ -99,6 +117,8 @@ def check_handler(f, rep, b):
                     r = x[2][1]
                     if r[0] == "agg" and (r[2] or "").endswith("RangeFrom") and r[4] == (("int", 1),):
                         return True
+                if split_first_part(x) == 1:        # the `rest` of `data.split_first()`
+                    return True
             return False
         if kind == "push":
             rep.check(tail_of(ev.args[1]), "R11.1", "R11.1|%s|push-topic" % b.path, "the pushed subscription is data[1..]: %s" % show(ev.args[1])[:70], b.loc(ev.bb))
